@@ -400,6 +400,22 @@ Section Connect.
     end.
 End Connect.
 
+(* ------------------------------------------------------------------ the whole connect *)
+(* pyatv.connect() / FacadeAppleTV.connect (pyatv/core/facade.py): the connect functions of the
+   queued protocols run in set-up order; the first one that raises ends connect() with that
+   exception (pyatv.connect then closes what was connected and re-raises: no device object).
+   [rs] = what each protocol's connect would do, in set-up order. *)
+Fixpoint facade_connect (rs : list conn) : option exn :=
+  match rs with
+  | [] => None
+  | r :: t => match raised r with Some e => Some e | None => facade_connect t end
+  end.
+
+(* pyatv/protocols/airplay/__init__.py setup(): the RAOP service synthesised for a device with
+   HasUnifiedAdvertiserInfo and no RAOP service of its own carries the AirPlay service's stored
+   credentials (and password) *)
+Definition embedded_raop_credentials (airplay_stored : option creds) : option creds := airplay_stored.
+
 (* ------------------------------------------------------------------ correspondence cases *)
 (* The oracles are instantiated by finite tables holding what the harness computed itself with
    the `cryptography` package for this case; a query that is not in a table gets the rejecting
@@ -518,3 +534,10 @@ Definition check_stobs (v1m v1k : bool) (cfg : proto -> pcfg) T h c pd pd4 (o : 
   && opt_beq exn_beq (e_raised r) surf && Bool.eqb (e_used r) used && Bool.eqb (e_keys r) k.
 Definition check_stream (v1m v1k : bool) (cfg : proto -> pcfg) (x : stcase) : bool :=
   let '(h, c, T, pd, pd4, obs) := x in forallb (check_stobs v1m v1k cfg T h c pd pd4) obs.
+
+(* ---- whole-connect cases: what each queued protocol's connect raised (None: returned), in
+   set-up order up to and including the last one that ran, and what pyatv.connect() raised *)
+Definition fcase := (list (option exn) * option exn)%type.
+Definition check_facade (x : fcase) : bool :=
+  let '(rs, overall) := x in
+  opt_beq exn_beq (facade_connect (map (fun r => {| raised := r; keys := match r with None => true | Some _ => false end |}) rs)) overall.
